@@ -263,7 +263,7 @@ def execute(plan, env):
         if exercise:
             res.count("probe.library_used_before_namespace_walk")
         job = {"sys_path": [ws.src], "steps": [{"op": "namespace", "imports": seq, "modules": documented, "names": names,
-                                                "exercise": exercise}]}
+                                                "exercise": exercise, "gen_packages": gen_packages}]}
         envv = dict(os.environ, PYTHONHASHSEED="0", PYTHONDONTWRITEBYTECODE="1")
         envv.pop("PYTHONPATH", None)
         p = subprocess.run([sys.executable, CHILD], input=json.dumps(job), capture_output=True, text=True, env=envv, timeout=600)
